@@ -187,6 +187,9 @@ def build(spec):
         return tuple(build(v) for v in spec["items"])
     elif g == "inf":
         return float("inf")
+    elif g == "realnd_const":
+        shp = tuple(spec["shape"])
+        return np.eye(shp[0], shp[1]) * float(spec["c"]) if spec.get("eye") else np.full(shp, float(spec["c"]))
     elif g == "qscalar":
         return np.quaternion(*[float(v) for v in spec["q"]])
     elif g == "scale_val":
